@@ -406,6 +406,7 @@ def _m_inverse(i, base, a, kw, st, node):
 
 
 def toy_group_rows(check, repo, thorough=False):
+    from ..par import pmap
     ECCM = "Crypto.PublicKey.ECC"
     mod = repo.module(ECCM)
     cls = repo.cls(mod, "EccKey")
@@ -445,34 +446,31 @@ def toy_group_rows(check, repo, thorough=False):
             return X is not None and X[0] % n == r
         wrong_s, wrong_v, wrong_sv = [], [], []
         zs = (0, 3, n + 2) if not thorough or p == 17 else (3,)
-        for d in range(1, n):
-            for k in range(1, n):
-                for z in zs:
-                    R = T.mul(k, T.G)
-                    r = R[0] % n
-                    s = pow(k, -1, n) * (z + d * r) % n
-                    got = run(f_sign, d, {"z": z, "k": k}, blind=1 + (d * k + z) % (n - 1))
-                    nrows += 1
-                    if got != (r, s):
-                        wrong_s.append("d=%d k=%d z=%d on y^2=x^3+%dx+%d mod %d (n=%d): %r, FIPS 186-4 6.3 gives %r" % (d, k, z, a, b, p, n, got, (r, s)))
-                        continue
-                    if r == 0 or s == 0:
-                        continue
-                    gv = run(f_verify, d, {"z": z, "rs": (r, s)})
-                    nrows += 1
-                    if gv is not True:
-                        wrong_sv.append("d=%d k=%d z=%d (n=%d, p=%d): the signature (r=%d, s=%d) just produced verifies as %r%s" % (
-                            d, k, z, n, p, r, s, gv, "; x_R = %d >= n" % R[0] if R[0] >= n else ""))
-        for d in ((1, 5) if not thorough else range(1, n, 3)):
-            Q = T.mul(d, T.G)
-            for z in (3, n + 9):
-                for r in range(1, n):
-                    for s in range(1, n):
-                        want = ref_verify(Q, z, r, s)
-                        got = run(f_verify, d, {"z": z, "rs": (r, s)})
-                        nrows += 1
-                        if got is not want:
-                            wrong_v.append("Q=%d*G z=%d (r=%d, s=%d) on the curve mod %d (n=%d): %r, FIPS 186-4 6.4 gives %r" % (d, z, r, s, p, n, got, want))
+        sj = [(d, k, z) for d in range(1, n) for k in range(1, n) for z in zs]
+        sg = pmap(lambda j: run(f_sign, j[0], {"z": j[2], "k": j[1]}, blind=1 + (j[0] * j[1] + j[2]) % (n - 1)), sj)
+        vj = []
+        for (d, k, z), got in zip(sj, sg):
+            R = T.mul(k, T.G)
+            r = R[0] % n
+            s = pow(k, -1, n) * (z + d * r) % n
+            nrows += 1
+            if got != (r, s):
+                wrong_s.append("d=%d k=%d z=%d on y^2=x^3+%dx+%d mod %d (n=%d): %r, FIPS 186-4 6.3 gives %r" % (d, k, z, a, b, p, n, got, (r, s)))
+            elif r != 0 and s != 0:
+                vj.append((d, k, z, r, s, R[0]))
+        vg = pmap(lambda j: run(f_verify, j[0], {"z": j[2], "rs": (j[3], j[4])}), vj)
+        for (d, k, z, r, s, rx), gv in zip(vj, vg):
+            nrows += 1
+            if gv is not True:
+                wrong_sv.append("d=%d k=%d z=%d (n=%d, p=%d): the signature (r=%d, s=%d) just produced verifies as %r%s" % (
+                    d, k, z, n, p, r, s, gv, "; x_R = %d >= n" % rx if rx >= n else ""))
+        aj = [(d, z, r, s) for d in ((1, 5) if not thorough else range(1, n, 3)) for z in (3, n + 9) for r in range(1, n) for s in range(1, n)]
+        ag = pmap(lambda j: run(f_verify, j[0], {"z": j[1], "rs": (j[2], j[3])}), aj)
+        for (d, z, r, s), got in zip(aj, ag):
+            want = ref_verify(T.mul(d, T.G), z, r, s)
+            nrows += 1
+            if got is not want:
+                wrong_v.append("Q=%d*G z=%d (r=%d, s=%d) on the curve mod %d (n=%d): %r, FIPS 186-4 6.4 gives %r" % (d, z, r, s, p, n, got, want))
         tag = "" if p == 17 else ".%d" % p
         check.ob("K-pw", "K-pw|ecdsa.toy.sign" + tag, not wrong_s, mod.path, f_sign.lineno,
                  extracted=("%d rows differ: " % len(wrong_s) + "; ".join(wrong_s[:2])) if wrong_s else "every (d, k, z) of the group of order %d: (r, s) as FIPS 186-4 6.3 (blinding included)" % n,
@@ -505,36 +503,34 @@ def toy_group_rows(check, repo, thorough=False):
             v = rets[0].value
             return tuple(v) if isinstance(v, (tuple, list)) else v
         wrong_s, wrong_v, wrong_sv = [], [], []
-        for x in range(1, q):
-            for k in range(2, q):
-                for m in (0, 3, q + 2):
-                    r = pow(g, k, p) % q
-                    s = pow(k, -1, q) * (m + x * r) % q
-                    got = drun(d_sign, x, {"m": m, "k": k}, blind=1 + (x * k + m) % (q - 1))
-                    nrows += 1
-                    if got != (r, s):
-                        wrong_s.append("x=%d k=%d m=%d (p=%d, q=%d, g=%d): %r, FIPS 186-4 4.6 gives %r" % (x, k, m, p, q, g, got, (r, s)))
-                        continue
-                    if r == 0 or s == 0:
-                        continue
-                    gv = drun(d_verify, x, {"m": m, "sig": (r, s)})
-                    nrows += 1
-                    if gv is not True:
-                        wrong_sv.append("x=%d k=%d m=%d: the signature (%d, %d) just produced verifies as %r" % (x, k, m, r, s, gv))
-        for x in (1, 5):
+        sj = [(x, k, m) for x in range(1, q) for k in range(2, q) for m in (0, 3, q + 2)]
+        sg = pmap(lambda j: drun(d_sign, j[0], {"m": j[2], "k": j[1]}, blind=1 + (j[0] * j[1] + j[2]) % (q - 1)), sj)
+        vj = []
+        for (x, k, m), got in zip(sj, sg):
+            r = pow(g, k, p) % q
+            s = pow(k, -1, q) * (m + x * r) % q
+            nrows += 1
+            if got != (r, s):
+                wrong_s.append("x=%d k=%d m=%d (p=%d, q=%d, g=%d): %r, FIPS 186-4 4.6 gives %r" % (x, k, m, p, q, g, got, (r, s)))
+            elif r != 0 and s != 0:
+                vj.append((x, k, m, r, s))
+        vg = pmap(lambda j: drun(d_verify, j[0], {"m": j[2], "sig": (j[3], j[4])}), vj)
+        for (x, k, m, r, s), gv in zip(vj, vg):
+            nrows += 1
+            if gv is not True:
+                wrong_sv.append("x=%d k=%d m=%d: the signature (%d, %d) just produced verifies as %r" % (x, k, m, r, s, gv))
+        aj = [(x, m, r, s) for x in (1, 5) for m in (3, q + 9) for r in range(0, q + 1) for s in range(0, q + 1)]
+        ag = pmap(lambda j: drun(d_verify, j[0], {"m": j[1], "sig": (j[2], j[3])}), aj)
+        for (x, m, r, s), got in zip(aj, ag):
             y = pow(g, x, p)
-            for m in (3, q + 9):
-                for r in range(0, q + 1):
-                    for s in range(0, q + 1):
-                        if 0 < r < q and 0 < s < q:
-                            w = pow(s, -1, q)
-                            want = (pow(g, m * w % q, p) * pow(y, r * w % q, p) % p) % q == r
-                        else:
-                            want = False
-                        got = drun(d_verify, x, {"m": m, "sig": (r, s)})
-                        nrows += 1
-                        if got is not want:
-                            wrong_v.append("y=g^%d m=%d (r=%d, s=%d), p=%d q=%d: %r, FIPS 186-4 4.7 gives %r" % (x, m, r, s, p, q, got, want))
+            if 0 < r < q and 0 < s < q:
+                w = pow(s, -1, q)
+                want = (pow(g, m * w % q, p) * pow(y, r * w % q, p) % p) % q == r
+            else:
+                want = False
+            nrows += 1
+            if got is not want:
+                wrong_v.append("y=g^%d m=%d (r=%d, s=%d), p=%d q=%d: %r, FIPS 186-4 4.7 gives %r" % (x, m, r, s, p, q, got, want))
         tag = "" if p == 23 else ".%d" % p
         check.ob("K-pw", "K-pw|dsa.toy.sign" + tag, not wrong_s, dmod.path, d_sign.lineno,
                  extracted=("%d rows differ: " % len(wrong_s) + "; ".join(wrong_s[:2])) if wrong_s else "every (x, k, m) of the subgroup of order %d mod %d: (r, s) as FIPS 186-4 4.6" % (q, p),
@@ -554,6 +550,7 @@ def rsa_toy_rows(check, repo, thorough=False, rule="K-pw"):
     several blinding factors, the Integer back-ends that the checker can interpret) and compared with c^d mod n."""
     from .int_table import Backend
     from ..absval import AClass
+    from ..par import pmap
     RSAM = "Crypto.PublicKey.RSA"
     mod = repo.module(RSAM)
     cls = repo.cls(mod, "RsaKey")
@@ -586,17 +583,21 @@ def rsa_toy_rows(check, repo, thorough=False, rule="K-pw"):
                 v = rets[0].value
                 return bytes(v) if isinstance(v, (bytes, bytearray)) else v
             step = 1 if (n < 300 and bname == "native" and (p < q or thorough)) else (5 if n < 300 else 97)
+            dj = []
             for c in list(range(0, n, step)) + [n - 1]:
                 r = [2, n - 1, 7, (c * 5 + 3) % n][c % 4]
                 while r % p == 0 or r % q == 0 or r == 0:
                     r += 1
-                got = run(f_dec, {"ciphertext": c}, r)
+                dj.append((c, r))
+            dg = pmap(lambda j: run(f_dec, {"ciphertext": j[0]}, j[1]), dj)
+            for (c, r), got in zip(dj, dg):
                 nrows += 1
                 want = pow(c, d, n).to_bytes(nb, "big")
                 if got != want:
                     wrong_d.append("%s back-end, n=%d*%d, c=%d, blinding r=%d: %r, c^d mod n is %r" % (bname, p, q, c, r, got, want))
-            for m in list(range(0, n, step * 2)) + [n - 1]:
-                got = run(f_enc, {"plaintext": m}, 2)
+            ej = list(range(0, n, step * 2)) + [n - 1]
+            eg = pmap(lambda m: run(f_enc, {"plaintext": m}, 2), ej)
+            for m, got in zip(ej, eg):
                 nrows += 1
                 if got != pow(m, e, n) or isinstance(got, bool):
                     wrong_e.append("%s back-end, n=%d, m=%d: %r, m^e mod n is %d" % (bname, n, m, got, pow(m, e, n)))
